@@ -118,42 +118,39 @@ Definition set_pos (w : window) (p : Z) : window := mkWindow (w_lo w) (w_hi w) p
 
 Definition wstep (fr : bool) (d : list Z) (w : window) (o : fop)
   : window * option window * list Z * aout :=
-  let gone := w_closed w || fr in
+  (* every operation but len() and close() fails once the window is closed or the file freed *)
+  let live (x : window * option window * list Z * aout) :=
+    if w_closed w || fr then (w, None, d, (Failed 0, false)) else x in
   match o with
   | FLen => (w, None, d, (Ok (VInt (wlen w)), false))
   | FClose =>
       if w_closed w then (w, None, d, (Ok VNone, false))
       else if fr then (w, None, d, (Failed 0, false))
       else (mkWindow (w_lo w) (w_hi w) (w_pos w) true, None, d, (Ok VNone, false))
-  | _ =>
-    if gone then (w, None, d, (Failed 0, false)) else
-    match o with
-    | FSeekSet n => (set_pos w n, None, d, (Ok VNone, false))
-    | FSeekCur n => (set_pos w (w_pos w + n), None, d, (Ok VNone, false))
-    | FSeekEnd n => (set_pos w (wlen w + n), None, d, (Ok VNone, false))
-    | FSeekBad => (w, None, d, (Failed 1, false))
-    | FRead n =>
-        let req := if n <? 0 then wlen w - w_pos w else n in
-        let k := transfer (w_pos w) req (wlen w) in
-        (set_pos w (w_pos w + k), None, d,
-         (Ok (VBytes (sub d (w_lo w + w_pos w) k)), warned (w_pos w) req (wlen w)))
-    | FWrite bs =>
-        let k := transfer (w_pos w) (zlen bs) (wlen w) in
-        (set_pos w (w_pos w + k), None,
-         (if 0 <? k then splice d (w_lo w + w_pos w) (firstn (Z.to_nat k) bs) else d),
-         (Ok (VInt k), warned (w_pos w) (zlen bs) (wlen w)))
-    | FSlice a b step =>
-        if contiguous step then
-          let s := clip_start (wlen w) a in
-          let e := Z.max s (clip_stop (wlen w) b) in
-          let nw := mkWindow (w_lo w + s) (w_lo w + e) 0 false in
-          (w, Some nw, d, (Ok (VView (w_lo nw) (w_hi nw)), false))
-        else (w, None, d, (Failed 1, false))
-    | FTell => (w, None, d, (Ok (VInt (w_pos w)), false))
-    | FAddress => (w, None, d, (Ok (VAddr (w_lo w + w_pos w)), false))
-    | FFlush => (w, None, d, (Ok VNone, false))
-    | FLen | FClose => (w, None, d, (OtherError, false))     (* unreachable: handled above *)
-    end
+  | FSeekSet n => live (set_pos w n, None, d, (Ok VNone, false))
+  | FSeekCur n => live (set_pos w (w_pos w + n), None, d, (Ok VNone, false))
+  | FSeekEnd n => live (set_pos w (wlen w + n), None, d, (Ok VNone, false))
+  | FSeekBad => live (w, None, d, (Failed 1, false))
+  | FRead n =>
+      let req := if n <? 0 then wlen w - w_pos w else n in
+      let k := transfer (w_pos w) req (wlen w) in
+      live (set_pos w (w_pos w + k), None, d,
+            (Ok (VBytes (sub d (w_lo w + w_pos w) k)), warned (w_pos w) req (wlen w)))
+  | FWrite bs =>
+      let k := transfer (w_pos w) (zlen bs) (wlen w) in
+      live (set_pos w (w_pos w + k), None,
+            (if 0 <? k then splice d (w_lo w + w_pos w) (firstn (Z.to_nat k) bs) else d),
+            (Ok (VInt k), warned (w_pos w) (zlen bs) (wlen w)))
+  | FSlice a b step =>
+      if contiguous step then
+        let s := clip_start (wlen w) a in
+        let e := Z.max s (clip_stop (wlen w) b) in
+        let nw := mkWindow (w_lo w + s) (w_lo w + e) 0 false in
+        live (w, Some nw, d, (Ok (VView (w_lo nw) (w_hi nw)), false))
+      else live (w, None, d, (Failed 1, false))
+  | FTell => live (w, None, d, (Ok (VInt (w_pos w)), false))
+  | FAddress => live (w, None, d, (Ok (VAddr (w_lo w + w_pos w)), false))
+  | FFlush => live (w, None, d, (Ok VNone, false))
   end.
 
 Definition astep (f : afile) (o : aop) : afile * aout :=
